@@ -129,6 +129,9 @@ class G(object):
         c = self.pool.mutable(kind, self.task)
         if not c:
             return None
+        rel = [x for x in c if id(x[1]) in self.pool.copyrel]
+        if rel and self.rng.random() < 0.5:
+            c = rel
         h, o = c[self.rng.randrange(len(c))]
         return {"h": h}
 
